@@ -4,3 +4,4 @@ pub mod print;
 pub mod value;
 pub mod ctx;
 pub mod tame;
+pub mod typed;
